@@ -15,7 +15,7 @@
    their own; the writer never emits them. *)
 From Coq Require Import NArith ZArith List Bool.
 From DV Require Import Base.Outcome Base.Bytes C06.Gen.
-From DV Require C17.Model.
+From DV Require C17.Model C18.Model.
 Import ListNotations.
 Local Open Scope N_scope.
 
@@ -629,6 +629,7 @@ Inductive fkind :=
 | FSalt                (* NSEC3 salt: a block of its own holding "-" or a Base16 word *)
 | FTimestamp           (* RRSIG signature time: decimal u32, or YYYYMMDDHHmmSS (Timestamp::scan) *)
 | FIp4                 (* IPv4 address: Ipv4Addr Display / scan_octets + Ipv4Addr::from_str *)
+| FB32                 (* Base32hex word in mid-record (NSEC3 next owner hash): C18 encoder / SymbolConverter *)
 | FDot                 (* the constant "." (IPSECKEY without a gateway) *)
 | FQuoted              (* quoted octets without a length limit (DisplayQuoted::from_slice / scan_octets: CAA value) *)
 | FRest.               (* rest of the entry: the word texts of all remaining tokens, concatenated
@@ -646,7 +647,8 @@ Inductive fval :=
 | VSalt (w : text)      (* the Base16 text of the salt, empty for no salt *)
 | VQuoted (b : bytes)
 | VIp4 (a : bytes)      (* the four octets *)
-| VDot.
+| VDot
+| VB32 (b : bytes).
 
 Definition show_field (v : fval) : list op :=
   match v with
@@ -662,6 +664,7 @@ Definition show_field (v : fval) : list op :=
   | VQuoted b => [OTok (show_cstr_quoted b)]
   | VIp4 a => [OTok (show_ip4 a)]
   | VDot => [OTok [ch_dot]]
+  | VB32 b => [OTok (match DV.C18.Model.b32_display b with Ok t => t | _ => [] end)]
   end.
 
 (* a field with the comment the writer attaches to it *)
@@ -734,6 +737,8 @@ Definition read_field (k : fkind) (ts : list tok) : outcome (fval * list tok) :=
           | FSalt => do w <- word_text (t_syms t);
                      Ok (VSalt (match w with [45] => [] | _ => w end), r)
           | FQuoted => do b <- read_octets t; Ok (VQuoted b, r)
+          | FB32 => do w <- word_text (t_syms t);
+                    do b <- DV.C18.Model.b32_convert [w]; Ok (VB32 b, r)
           | FDot => do w <- read_ascii t;
                     match w with [46] => Ok (VDot, r) | _ => Err E_symbol end
           | FIp4 => do b <- read_octets t;
@@ -824,7 +829,7 @@ Definition fkind_of (w r : N) : option fkind :=
   | 18 => Some FDot
   | 11 => Some FTypes
   | 12 => Some FSalt
-  | 15 => Some FWord
+  | 15 => Some FB32
   | 9 => Some FCharstrs
   | _ => None
   end.
@@ -861,7 +866,7 @@ Definition val_matches (k : fkind) (v : fval) : bool :=
   match k, v with
   | FUint _, VUint _ | FTimestamp, VUint _ | FName, VName _ | FCharstr, VCharstr _ | FWord, VWord _
   | FCharstrs, VCharstrs _ | FRest, VRest _ | FRtype, VRtype _ | FTypes, VTypes _ | FSalt, VSalt _
-  | FQuoted, VQuoted _ | FIp4, VIp4 _ | FDot, VDot => true
+  | FQuoted, VQuoted _ | FIp4, VIp4 _ | FDot, VDot | FB32, VB32 _ => true
   | _, _ => false
   end.
 
